@@ -65,6 +65,9 @@ pub struct TTable {
     pub tfoot_first: bool,
     /// the body rows from this index (into the body) on form a second <tbody>
     pub tbody_split: Option<usize>,
+    /// id attributes on the table, its first row and the first cell of every row
+    /// (fragment markers are zero-width and must not disturb the drawing)
+    pub ids: bool,
 }
 
 impl TTable {
@@ -121,12 +124,19 @@ impl TTable {
                 if let Some((k, v)) = c.attr {
                     e.attrs.push((k.into(), v.into()));
                 }
+                if self.ids && cells.is_empty() {
+                    e.attrs.push(("id".into(), format!("c{}", ri)));
+                }
                 if c.span > 1 {
                     e.attrs.push(("colspan".into(), c.span.to_string()));
                 }
                 cells.push(e.node());
             }
-            let tr = El::with("tr", cells).node();
+            let mut tr = El::with("tr", cells);
+            if self.ids && ri == 0 {
+                tr.attrs.push(("id".into(), "r0".into()));
+            }
+            let tr = tr.node();
             if ri < self.thead_rows {
                 head.push(tr)
             } else if foot_range.contains(&ri) {
@@ -161,7 +171,11 @@ impl TTable {
                 kids.push(f);
             }
         }
-        El::with("table", kids).node()
+        let mut t = El::with("table", kids);
+        if self.ids {
+            t.attrs.push(("id".into(), "t0".into()));
+        }
+        t.node()
     }
     /// all T-text of the table in document order
     pub fn all_text(&self) -> String {
@@ -353,6 +367,7 @@ pub fn gen_table(rng: &mut Rng, tok: &mut Tokens, depth: usize, allow_nested: bo
         tfoot_rows,
         tfoot_first,
         tbody_split,
+        ids: false,
     }
 }
 
@@ -436,6 +451,7 @@ pub fn exhaustive_table(mut idx: u64, max_rows: usize, max_cols: usize, rng: &mu
                     tfoot_rows: 0,
                     tfoot_first: false,
                     tbody_split: None,
+                    ids: false,
                 };
             }
             idx -= n;
@@ -449,6 +465,7 @@ pub fn exhaustive_table(mut idx: u64, max_rows: usize, max_cols: usize, rng: &mu
         tfoot_rows: 0,
         tfoot_first: false,
         tbody_split: None,
+        ids: false,
     }
 }
 
